@@ -775,7 +775,9 @@ impl SerializableValue {
                     args: s_lambda.args.clone(),
                     body: body_ast,
                     scope: CapturedScope::new(scope),
-                    source: Rc::from(""), // Deserialized lambdas don't have original source
+                    // The body was just parsed from `s_lambda.body`, so that text is what the
+                    // spans of `body_ast` refer to (runtime errors are reported against it)
+                    source: Rc::from(s_lambda.body.as_str()),
                 };
 
                 Ok(heap.insert_lambda(lambda))
